@@ -120,23 +120,36 @@ def check(ctx, replay=None):
     ns = [1, 2, 4, 8, 16, 32, 64]
     reps = 6 if th else 2
     work = [{"n": n, "flags": fl, "seed": ctx.seed * 100 + k * 7 + n, "spawns": 3} for n in ns for fl in (0, 1, 2, 3) for k in range(reps)]
+    # a thread with a divergent private filter: the kernel refuses the thread-sync; nil is only admissible with every thread filtered
+    work += [{"n": n, "flags": fl, "seed": ctx.seed + n, "spawns": 2, "divergent": True} for n in (2, 8) for fl in (1, 3, 0, 2)]
     results = lf.run_many(lambda c: (c, run_cfg(binary, c)), work, workers=6)
     rows = []
     nrec = 0
+    ndiv = 0
     for cfg, (obs, err) in results:
         if obs is None:
             ctx.skip("recorder failed: " + err)
             continue
         if obs["result"] != "nil":
+            if cfg.get("divergent") and cfg["flags"] & 1:
+                ndiv += 1     # refused thread-sync reported as an error: admissible, nothing to validate
+                continue
             ctx.violation("a valid filter with NoNewPrivs could not be loaded with flags %#x: %s" % (cfg["flags"], obs.get("error")),
                           {"config": cfg, "recording": obs, "how": "./check C10 --replay <this file>"})
+            continue
+        if cfg.get("divergent") and cfg["flags"] & 1:
+            # nil although another thread carries a divergent filter: judged directly by the statement
+            bad = direct_judge(obs, cfg["flags"])
+            for b in bad[:2]:
+                ctx.violation("thread-sync load returned nil with a divergent thread present: " + b, {"config": cfg, "recording": obs,
+                              "admissible": "an error, or nil with every thread filtered", "how": "./check C10 --replay <this file>"})
             continue
         nrec += 1
         rows.append((cfg, obs, to_trace(obs, cfg["flags"])))
         ctx.cov["evaluations"] += sum(len(t["probes"]) for t in obs["threads"])
         if any(p["filtered"] and not p["saw"] for t in obs["threads"] for p in t["probes"]):
             ctx.cov["distinct_nontrivial"] += 1
-    if nrec < len(work) // 2:
+    if nrec + ndiv < len(work) // 2:
         raise vlib.Machinery("only %d of %d recordings succeeded" % (nrec, len(work)))
     # concatenate into a few trace files, validate in parallel
     nfiles = 8
@@ -169,6 +182,7 @@ def check(ctx, replay=None):
     if s:
         ctx.sample({"config": rows[0][0], "threads": len(s["threads"]), "first_thread": s["threads"][0]})
     ctx.cov["recordings"] = nrec
+    ctx.cov["refused_thread_sync_runs"] = ndiv
     ctx.cov["rule"] = ("recordings: N in {1,2,4,8,16,32,64} wired threads (spinning, sleeping, blocked in read, spawning short-lived threads before/after the load) x flags "
                        "{0,tsync,log,tsync|log} x seeds; per-thread probe logs ordered by program order and an atomic `loaded` flag only; every recording validated by "
                        "LoaderTrace.tla; non-trivial = some thread was already filtered before it saw `loaded` (the window between attach and return was hit)")
